@@ -174,7 +174,7 @@ def classify(kf, rec):
             return True
         # a marker word directly after a sentence end inside a paragraph of the input
         src = c.get("parser_input") or doc
-        return any(MARKER_WORD.match(m.group(1)) for m in re.finditer(r"[.!?][\"'\u201d\u2019)]*[ \t]+(\S+)(?=\s|$)", src))
+        return any(MARKER_WORD.match(m.group(1)) for m in re.finditer(r"[.!?][\"'\u201d\u2019)]*\s+(\S+)(?=\s|$)", src))
     if cl == "html-or-table-at-line-start":
         return "HTML block start" in what
     if cl == "closing-tag-unindented":
